@@ -142,7 +142,7 @@ class FsSeam:
         with open(dst, 'wb') as out:
             out.write(data)
         # (the byte count is not logged: Dataset.from_df orders descriptors by iterating a set, so the bytes of a file that
-        #  holds such an object depend on PYTHONHASHSEED -- pinned to 0 by the CLI -- while the events of a run do not)
+        #  holds such an object depend on PYTHONHASHSEED -- fixed per batch by the CLI -- while the events of a run do not)
         self.tick('crash_snapshot', target=self.rel(path), empty=len(data) == 0)
         return dst
 
